@@ -11,6 +11,7 @@ import time
 import traceback
 
 import z3
+from fractions import Fraction
 
 from . import ir
 
@@ -72,6 +73,10 @@ def _solve_z3(formulas, timeout_ms):
     return "unknown:" + s.reason_unknown(), None, dt, s
 
 
+_CVC5_RESERVED = {"sin", "cos", "tan", "csc", "sec", "cot", "arcsin", "arccos", "arctan", "arccsc", "arcsec", "arccot", "exp", "sqrt", "abs", "pi", "log", "pow",
+                  "floor", "ceil", "sign", "tanh", "max", "min", "round", "erf"}
+
+
 def _solve_cvc5(formulas, timeout_ms):
     """Re-check through SMT-LIB text with the cvc5 python binding (independent back end)."""
     try:
@@ -88,9 +93,13 @@ def _solve_cvc5(formulas, timeout_ms):
         slv = cvc5.Solver()
         slv.setOption("tlimit-per", str(int(timeout_ms)))
         slv.setOption("produce-models", "false")
-        slv.setLogic(logic)
         ip = cvc5.InputParser(slv)
-        ip.setStringInput(cvc5.InputLanguage.SMT_LIB_2_6, "(set-logic ALL)\n" + text.replace("(check-sat)", ""), "vc")
+        body = "\n".join(l for l in text.replace("(check-sat)", "").splitlines() if not l.startswith("(set-logic") and not l.startswith("(set-info"))
+        import re
+        # uninterpreted functions whose names collide with cvc5 theory symbols (sin, cos, exp, ...) are renamed; they stay uninterpreted
+        for nm in set(re.findall(r"\(declare-fun ([A-Za-z_]+) ", body)) & _CVC5_RESERVED:
+            body = re.sub(r"(?<![A-Za-z0-9_!.#|])" + nm + r"(?![A-Za-z0-9_!.#|])", "uf_" + nm, body)
+        ip.setStringInput(cvc5.InputLanguage.SMT_LIB_2_6, "(set-logic ALL)\n" + body, "vc")
         sm = ip.getSymbolManager()
         while True:
             cmd = ip.nextCommand()
@@ -106,6 +115,39 @@ def _solve_cvc5(formulas, timeout_ms):
         return "unknown:cvc5", None, dt
     except Exception as e:
         return f"unknown:cvc5-error:{type(e).__name__}:{str(e)[:80]}", None, time.time() - t0
+
+
+def _conjuncts(g):
+    out, stack = [], [g]
+    while stack:
+        t = stack.pop()
+        if z3.is_and(t):
+            stack.extend(reversed(t.children()))
+        else:
+            out.append(t)
+    return out
+
+
+def _finite_cases(formulas, max_vals=8):
+    """(x, [values]) for the first hypothesis of the form Or(x == c1, ..., x == cn) with x an integer constant and ci numerals"""
+    for f in formulas:
+        if not z3.is_or(f):
+            continue
+        x, vals = None, []
+        for d in f.children():
+            if not (z3.is_eq(d) and d.num_args() == 2):
+                break
+            a, c = d.arg(0), d.arg(1)
+            if z3.is_int_value(a):
+                a, c = c, a
+            if not (z3.is_const(a) and a.decl().kind() == z3.Z3_OP_UNINTERPRETED and z3.is_int(a) and z3.is_int_value(c)) or (x is not None and not a.eq(x)):
+                break
+            x = a
+            vals.append(c)
+        else:
+            if x is not None and 1 < len(vals) <= max_vals:
+                return x, vals
+    return None
 
 
 class ObResult(dict):
@@ -163,8 +205,10 @@ def close_reductions(ctx, base, timeout_ms=5000, max_rounds=4):
       * sum whose body does not depend on the index (body(j1) == body(j2))  =>  sum == extent * body;
       * sum of non-negative terms is non-negative.
     Returns the list of lemma formulas (possibly creating further reduction records while evaluating bodies)."""
-    lemmas = []
-    done_pairs, done_const = set(), set()
+    # incremental across the obligations of one unit: lemmas are consequences of (ctx.assumptions, base) only, so they are reusable for the same base
+    cache = ctx.__dict__.setdefault("_red_cache", {})
+    ck = (tuple(ir.zbool(h).get_id() for h in base), len(ctx.assumptions))
+    lemmas, done_pairs, done_const = cache.setdefault(ck, ([], set(), set()))
     for _ in range(max_rounds):
         changed = False
         reds = list(ctx.reductions)
@@ -186,7 +230,7 @@ def close_reductions(ctx, base, timeout_ms=5000, max_rounds=4):
         reds = list(ctx.reductions)
         for a in reds:
             for b in reds:
-                if a.rid >= b.rid or a.kind != b.kind or (a.rid, b.rid) in done_pairs:
+                if a.rid >= b.rid or a.kind != b.kind or (a.rid, b.rid) in done_pairs or (a.rid, b.rid, "f", len(lemmas)) in done_pairs:
                     continue
                 ea, eb = ir.zint(a.extent), ir.zint(b.extent)
                 cur = list(ctx.assumptions) + base + lemmas
@@ -194,13 +238,59 @@ def close_reductions(ctx, base, timeout_ms=5000, max_rounds=4):
                     done_pairs.add((a.rid, b.rid))
                     continue
                 ba, bb = a.body(j1), b.body(j1)
-                if _valid(list(ctx.assumptions) + base + lemmas + [j1 >= 0, j1 < ea], ir.seq(ba, bb), timeout_ms):
+                hy = list(ctx.assumptions) + base + lemmas + [j1 >= 0, j1 < ea]
+                n_lem = len(lemmas)
+                done_pairs.add((a.rid, b.rid, "f", n_lem))  # not retried until a new lemma has been added
+                if _valid(hy, ir.seq(ba, bb), timeout_ms):
                     lemmas.append(a.sym == b.sym)
                     done_pairs.add((a.rid, b.rid))
                     changed = True
+                elif a.kind == "sum" and not z3.is_bool(ir.z_of(ba, "f")) and _valid(hy, ir.seq(ba, ir.sneg(bb)), timeout_ms):
+                    lemmas.append(ir.zreal(a.sym) == -ir.zreal(b.sym))  # linearity: sum(-f) = -sum(f)
+                    done_pairs.add((a.rid, b.rid))
+                    changed = True
+                elif a.kind == "sum" and not z3.is_bool(ir.z_of(ba, "f")) and (a.rid, b.rid, "s") not in done_pairs:
+                    done_pairs.add((a.rid, b.rid, "s"))
+                    # linearity with a numeric factor: sum(k*f) = k*sum(f); candidates k are the numerals occurring in either body
+                    for k in _scale_candidates(ba, bb):
+                        if _valid(hy, ir.zreal(ir.z_of(ba, "f")) == k * ir.zreal(ir.z_of(bb, "f")), min(timeout_ms, 2000)):
+                            lemmas.append(ir.zreal(a.sym) == k * ir.zreal(b.sym))
+                            done_pairs.add((a.rid, b.rid))
+                            changed = True
+                            break
         if not changed and len(ctx.reductions) == len(reds):
             break
-    return lemmas
+    return list(lemmas)
+
+
+def _numerals(t, out, limit=200):
+    seen, stack = set(), [t]
+    while stack and len(seen) < limit:
+        x = stack.pop()
+        if x.get_id() in seen:
+            continue
+        seen.add(x.get_id())
+        if z3.is_rational_value(x) or z3.is_int_value(x):
+            out.add(x.as_fraction() if z3.is_rational_value(x) else Fraction(x.as_long()))
+        else:
+            stack.extend(x.children())
+
+
+def _scale_candidates(ba, bb, limit=6):
+    na, nb = set(), set()
+    if ir.is_z3(ba):
+        _numerals(ba, na)
+    if ir.is_z3(bb):
+        _numerals(bb, nb)
+    nums = na ^ nb  # a factor k relating the two bodies shows up as a numeral in one of them only
+    ks = []
+    for c in sorted(nums, key=lambda c: (abs(c.numerator) + abs(c.denominator), c)):
+        if c in (0, 1, -1):
+            continue
+        for k in (c, 1 / c, -c, -1 / c):
+            if k not in ks:
+                ks.append(k)
+    return [z3.RealVal(str(k)) for k in ks[:4 * limit]]
 
 
 def _valid(hyps, goal, timeout_ms):
@@ -272,18 +362,61 @@ class Session:
             g = z3.substitute(goal, *subst) if subst else goal
             b = [z3.substitute(f, *subst) for f in base] if subst else base
             backend = "z3-" + z3.get_version_string()
-            st = None
-            if nonlinear_first_budget_ms and nonlinear_first_budget_ms < 0:
+            st, model, dt = None, None, 0.0
+            neg = b + [z3.Not(g)]
+            nl = nonlinear_first_budget_ms
+            budget = timeout_ms if not nl else min(timeout_ms, max(abs(nl), 5000))
+            cases = _finite_cases(b) if nl else None
+
+            def by_cases(solve_abstract_only):
+                # finite case split on an integer constant constrained by a hypothesis Or(x == c1, ...): substitute each value
+                x, vals = cases
+                tot = 0.0
+                for v in vals:
+                    fs = [z3.simplify(z3.substitute(f, (x, v))) for f in neg]
+                    stc, _, dtc, _ = _solve_z3(abstract_nonlinear(fs), min(budget, 3000) if solve_abstract_only else budget)
+                    tot += dtc
+                    if stc != "unsat" and not solve_abstract_only:
+                        stc, _, dtc, _ = _solve_z3(fs, budget)
+                        tot += dtc
+                    if stc != "unsat":
+                        return False, tot
+                return True, tot
+            if nl and nl < 0:
                 # abstraction first (fast and stable for relational obligations whose two sides share their structure)
-                st0, _, dt0, _ = _solve_z3(abstract_nonlinear(b + [z3.Not(g)]), timeout_ms)
+                st0, _, dt0, _ = _solve_z3(abstract_nonlinear(neg), timeout_ms)
+                dt += dt0
                 if st0 == "unsat":
-                    st, model, dt, backend = "unsat", None, dt0, backend + " (nonlinear products abstracted to uninterpreted functions)"
+                    st, backend = "unsat", backend + " (nonlinear products abstracted to uninterpreted functions)"
+            if st is None and cases is not None:
+                ok, dtc = by_cases(True)
+                dt += dtc
+                if ok:
+                    st, backend = "unsat", backend + f" (case split on {cases[0]} over {len(cases[1])} values; nonlinear products abstracted)"
             if st is None:
-                st, model, dt, solver = _solve_z3(b + [z3.Not(g)], timeout_ms if not nonlinear_first_budget_ms else min(timeout_ms, abs(nonlinear_first_budget_ms)))
-            if st.startswith("unknown"):
-                st3, _, dt3, _ = _solve_z3(abstract_nonlinear(b + [z3.Not(g)]), timeout_ms)
+                st, model, dt1, solver = _solve_z3(neg, timeout_ms if not nl else min(timeout_ms, abs(nl)))
+                dt += dt1
+            if st.startswith("unknown") and z3.is_and(g) and g.num_args() > 1:
+                # conjunct splitting: each conjunct separately is a much smaller (nonlinear) refutation problem
+                ok = True
+                for cj in _conjuncts(g):
+                    stc, _, dtc, _ = _solve_z3(b + [z3.Not(cj)], budget)
+                    dt += dtc
+                    if stc != "unsat":
+                        ok = False
+                        break
+                if ok:
+                    st, backend = "unsat", backend + " (goal split into conjuncts)"
+            if st.startswith("unknown") and cases is not None:
+                ok, dtc = by_cases(False)
+                dt += dtc
+                if ok:
+                    st, backend = "unsat", backend + f" (case split on {cases[0]} over {len(cases[1])} values)"
+            if st.startswith("unknown") and not (nl and nl < 0):
+                st3, _, dt3, _ = _solve_z3(abstract_nonlinear(neg), timeout_ms)
+                dt += dt3
                 if st3 == "unsat":
-                    st, dt, backend = "unsat", dt + dt3, backend + " (nonlinear products abstracted to uninterpreted functions)"
+                    st, backend = "unsat", backend + " (nonlinear products abstracted to uninterpreted functions)"
             if st.startswith("unknown"):
                 st2, _, dt2 = _solve_cvc5(b + [z3.Not(g)], timeout_ms)
                 if st2 == "unsat":
@@ -299,7 +432,7 @@ class Session:
                                    seconds=round(time.time() - t0, 3), solver_s=round(dt, 3), canary=canary,
                                    n_assumptions=len(b), holes=[str(c) for c in combo] or None)
                 if self.tier == "thorough":
-                    st2, _, dt2 = _solve_cvc5(b + [z3.Not(g)], timeout_ms)
+                    st2, _, dt2 = _solve_cvc5(b + [z3.Not(g)], min(timeout_ms, 15_000))
                     rec["cvc5_recheck"] = st2
                     rec["cvc5_s"] = round(dt2, 3)
                 return rec
@@ -312,7 +445,8 @@ class Session:
             return self._record(oid, "failed", function=function, what=what, backend=backend,
                                 seconds=round(time.time() - t0, 3), solver_s=round(dt, 3),
                                 model=model_summary(model), _model=model, replay=replay,
-                                holes=[str(c) for c in combo] or None)
+                                holes=[str(c) for c in combo] or None,
+                                abstraction_incomplete=bool(ctx.reductions))
         return self._record(oid, "undecided", function=function, what=what, reason=undecided,
                             seconds=round(time.time() - t0, 3))
 
